@@ -1,7 +1,7 @@
 """C05 - Responses are accepted only if addressed to this SP and solicited."""
 import ast
 
-from ..match import facts, Q
+from ..match import facts, Q, just, result_reaches
 from ..srcmodel import attr_chain, call_name, unparse, norm_text, walk_no_nested
 from ..cfg import cfg_of, raised_class
 from ..dataflow import Origins
@@ -121,11 +121,10 @@ def r2_scd_in_response_to(run):
         run.violated("R2", key, "loads() no longer calls the check", ld.loc())
         return
     nd, c = calls[0]
-    ok = nd.kind == "test" and isinstance(nd.ast, ast.UnaryOp) and \
-        unparse(arg_of(c, 0)) == "self.in_response_to"
-    if ok:
-        bad = [b for b in lcfg.succ[nd.id] if lcfg.nodes[b].kind == "true"]
-        ok = bad and all(only_raises_from(lcfg, b) for b in bad)
+    excs = [x.id for x in lcfg.nodes if x.kind == "exc"]
+    ok = lcfg.same(arg_of(c, 0), nd.id, "self.in_response_to") and \
+        result_reaches(lcfg, nd.id, c, [lcfg.return_exit], "F",
+                       avoid=excs) is None
     run.check(ok, "R2", key, "a false result raises UnsolicitedResponse",
               "a false result of the check does not refuse the response",
               ld.loc(c))
@@ -198,30 +197,24 @@ def r3_destination(run):
                   "truthy result for a destination that is not one of the own "
                   "endpoints (no pattern configured)", fd.loc(),
                   witness=dcfg.describe_path(wit) if wit else None)
-    wit = dcfg.flag_search(
-        dcfg.entry, {"does_match": "U"}, lambda n, vd: n in trues and
-        vd.get("does_match") == "F",
-        assume={dest: "T", "self.valid_destination_regex is not None": "T"})
-    run.check(wit is None, "R3", fd.qual + "::pattern-mismatch=>False",
-              "a destination not matching the pattern is refused",
-              "truthy result although the destination does not match the "
-              "configured pattern", fd.loc(),
-              witness=dcfg.describe_path(wit) if wit else None)
     srch = [c for c in calls_named(fd.node, "search", "match", "fullmatch")]
     ok = len(srch) == 1 and [unparse(a) for a in srch[0].args] == \
         ["self.valid_destination_regex", dest]
     run.check(ok, "R3", fd.qual + "::pattern-args",
               "re.search(pattern, destination)",
               "pattern match is %s" % [unparse(c) for c in srch], fd.loc())
-    dm = [s for s in walk_no_nested(fd.node) if isinstance(s, ast.Assign) and
-          isinstance(s.targets[0], ast.Name) and s.targets[0].id == "does_match"]
-    ok = len(dm) == 1 and isinstance(dm[0].value, ast.Call) and \
-        call_name(dm[0].value) == "bool" and dm[0].value.args and \
-        dm[0].value.args[0] is (srch[0] if srch else None)
-    run.check(ok, "R3", fd.qual + "::does_match",
-              "does_match = bool(re.search(...))",
-              "does_match no longer derives from the pattern search", fd.loc(),
-              nontrivial=False)
+    if ok:
+        # whatever name (if any) the result is kept under: a failed search
+        # (falsy result) must not reach a truthy return
+        wit = dcfg.flag_search(
+            dcfg.entry, {}, lambda n, vd: n in trues,
+            assume={dest: "T", "self.valid_destination_regex is not None": "T",
+                    unparse(srch[0]): "F"})
+        run.check(wit is None, "R3", fd.qual + "::pattern-mismatch=>False",
+                  "a destination not matching the pattern is refused",
+                  "truthy result although the destination does not match the "
+                  "configured pattern", fd.loc(),
+                  witness=dcfg.describe_path(wit) if wit else None)
 
 
 def r4_audience_independent(run):
@@ -251,8 +244,8 @@ def r4_audience_independent(run):
     accept = [r.id for r in cfg.by_kind("return") if is_true_const(r.ast.value)]
     wit = unguarded_path(
         cfg, cfg.entry, accept, [nd.id],
-        lambda e, pol: pol is False and unparse(e) in (
-            "self.assertion.conditions", "conditions.keyswv()"))
+        just(cfg, ("self.assertion.conditions", False),
+             ("conditions.keyswv()", False)))
     run.check(wit is None, "R4", key + "::on-every-path",
               "every accepting path with Conditions evaluates for_me()",
               "an accepting path skips the audience check", fi.loc(),
@@ -507,7 +500,7 @@ def r8_came_from(run):
     bacc = [r.id for r in bcfg.by_kind("return") if is_true_const(r.ast.value)]
     wit = bcfg.flag_search(
         bcfg.entry, {}, lambda n, vd: n in bacc,
-        assume={"self.asynchop and self.came_from is None": "T",
+        assume={"self.asynchop": "T", "self.came_from is None": "T",
                 "data.in_response_to": "T",
                 "data.in_response_to in self.outstanding_queries": "F",
                 "self.allow_unsolicited": "F"})
